@@ -217,3 +217,17 @@ if _cpu:
     import resource as _res
 
     _res.setrlimit(_res.RLIMIT_CPU, (int(_cpu), int(_cpu) + 5))
+
+# VF_REACH=<dir> + VF_REACH_REPO=<repo> : record which lines of <repo>/ford this process executes (vf/reach.py), written at exit
+if os.environ.get("VF_REACH") and os.environ.get("VF_REACH_REPO"):
+    try:
+        import atexit
+        import importlib.util
+
+        _spec = importlib.util.spec_from_file_location("vf_reach", os.path.join(os.path.dirname(os.path.dirname(os.path.abspath(__file__))), "reach.py"))
+        _reach = importlib.util.module_from_spec(_spec)
+        _spec.loader.exec_module(_reach)
+        _reach.start(os.environ["VF_REACH_REPO"])
+        atexit.register(_reach.dump)
+    except Exception:  # noqa: BLE001
+        pass
